@@ -119,11 +119,50 @@ fn step<T: BE>(m: &mut Tridiagonal<T>, op: &Value) -> Result<Res<T>, String> {
     })
 }
 
-fn run_hist_from<T: BE>(case: &Value, out: &mut Out, k0: usize) {
+fn run_hist_from<T: BE>(case: &Value, out: &mut Out, k0: usize) { run_on::<T>(None, case, out, k0); }
+/// a second object built in one of several ways ("vecs", "vectors", "index", "resized": grown from a 1 x 1 matrix, "clone": a clone whose original is dropped)
+fn aux_build<T: BE>(b: &Value, how: &str) -> Tridiagonal<T> {
+    match how {
+        "resized" => { let src = tri_from::<T>(b, "vecs"); let n = src.size(); let mut a = Tridiagonal::<T>::new(1); a.resize(n);
+            for i in 0..n { for j in i.saturating_sub(1)..(i + 2).min(n) { a[(i, j)] = src[(i, j)]; } } a }
+        "clone" => { let o = tri_from::<T>(b, "vecs"); let c = o.clone(); drop(o); c }
+        h => tri_from::<T>(b, h),
+    }
+}
+/// the history of `case` on the object `m0` (or on the object the case prescribes); returns the object
+fn run_on<T: BE>(m0: Option<Tridiagonal<T>>, case: &Value, out: &mut Out, k0: usize) -> Option<Tridiagonal<T>> {
     let cid = geti(case, "cid");
-    let mut m = match if k0 == 0 { construct::<T>(case, out) } else { guarded(|| tri_from::<T>(&case["tri"], gets(case, "ctor"))).ok() } { Some(m) => m, None => return };
+    let mut m = match m0 { Some(m) => m, None => match if k0 == 0 { construct::<T>(case, out) } else { guarded(|| tri_from::<T>(&case["tri"], gets(case, "ctor"))).ok() } { Some(m) => m, None => return None } };
+    let mut aux: Option<Tridiagonal<T>> = None; let mut snap = [Value::Null, Value::Null];
     for (k, op) in case["ops"].as_array().unwrap().iter().enumerate() {
         let k = k + k0;
+        // ---- a second, persistent object: Clone::clone_from in both directions, independence
+        match gets(op, "op") {
+            "aux_new" => { aux = guarded(|| aux_build::<T>(&op["b"], gets(op, "how"))).ok(); if let Some(a) = &aux { snap = [jtri(a, Part::Re), jtri(a, Part::Im)]; } continue; }
+            "on_aux" => { if let Some(a) = aux.take() { let mut sub = json!({"cid": cid, "kind": "hist", "ops": op["ops"]}); if let Some(x) = case.get("exact") { sub["exact"] = x.clone(); }
+                aux = run_on::<T>(Some(a), &sub, out, 1000 * (k + 1)); if let Some(a) = &aux { snap = [jtri(a, Part::Re), jtri(a, Part::Im)]; } } continue; }
+            name @ ("clone_from" | "clone_into" | "aux_same" | "reclone") => {
+                let seq = gets(case, "kind") == "seq";
+                let pre = [jtri(&m, Part::Re), jtri(&m, Part::Im)];
+                let mut extra: Vec<(&str, [Value; 2])> = vec![];
+                let r = guarded(|| match name {
+                    "clone_from" => { let a = aux.as_ref().unwrap_or_else(|| tool_error("no aux")); extra.push(("b", [jtri(a, Part::Re), jtri(a, Part::Im)])); m.clone_from(a); extra.push(("bpost", [jtri(a, Part::Re), jtri(a, Part::Im)])); }
+                    "clone_into" => { let a = aux.as_mut().unwrap_or_else(|| tool_error("no aux")); a.clone_from(&m); snap = [jtri(a, Part::Re), jtri(a, Part::Im)]; extra.push(("rt", snap.clone())); }
+                    "aux_same" => { let a = aux.as_ref().unwrap_or_else(|| tool_error("no aux")); extra.push(("rt", [jtri(a, Part::Re), jtri(a, Part::Im)])); extra.push(("want", snap.clone())); }
+                    _ => { let c = m.clone(); let old = std::mem::replace(&mut m, c); drop(old); }
+                });
+                let post = [jtri(&m, Part::Re), jtri(&m, Part::Im)];
+                for w in 0..(if T::CX { 2 } else { 1 }) {
+                    let mut e = json!({"op": name, "ty": T::NAME, "cid": cid, "k": k, "panic": r.is_err(), "pre": pre[w], "post": post[w], "part": if w == 0 { "re" } else { "im" }});
+                    if seq { e["seq"] = json!(true); }
+                    for key in ["b", "bpost", "rt", "want"] { e[key] = post[w].clone(); }      // (fields the trace spec may look at must exist)
+                    for (key, v) in &extra { e[*key] = v[w].clone(); }
+                    out.ev(e);
+                }
+                continue;
+            }
+            _ => {}
+        }
         // a DIFFERENT object on the same thread, in the middle of the history: its own (stand-alone) events
         if gets(op, "op") == "other" { let mut sub = op["case"].clone(); sub["cid"] = json!(cid); run_hist_from::<T>(&sub, out, 1000 * (k + 1)); continue; }
         let name = match gets(op, "op") { "clone_solve" => "solve", "clone_det" => "det", s => s };
@@ -233,6 +272,7 @@ fn run_hist_from<T: BE>(case: &Value, out: &mut Out, k0: usize) {
             out.ev(e);
         }
     }
+    Some(m)
 }
 
 // ------------------------------------------------------------------ det / solve on one matrix
@@ -574,6 +614,8 @@ pub fn gen(tier: &str, seed: u64, out: &mut Out) {
         } }
     }
     { let mut sink = |c: Value| push(out, c); exact_and_sweep(&mut rng, quick, seed, &mut sink); }
+    // (m) the std-trait forms: Clone::clone_from between objects of every relation of sizes, clone-and-drop
+    { let mut sink = |c: Value| push(out, c); clonefrom_cases(&mut rng, quick, &mut sink); }
     // (k) what a refused call leaves behind: the same object, a clone and another object right after it
     { let mut sink = |c: Value| push(out, c); poison_cases(&mut rng, quick, &mut sink); }
     // (g) the product (and conversion) for sizes beyond the number of CPUs, partly with the process restricted to 1..3 CPUs
@@ -914,4 +956,40 @@ fn poison_cases(rng: &mut StdRng, quick: bool, push: &mut dyn FnMut(Value)) {
             }
         } }
     }
+}
+
+// ------------------------------------------------------------------ Clone::clone_from, clone-and-drop
+/// One object led through a chain of `clone_from` calls whose sources are of the same size, larger, smaller, of size 1 and back;
+/// sources built in every way (three constructors, grown by resize, cloned from a dropped original); the target fresh, mutated
+/// or resized just before.  After every call: all observers, det and solve (exact for every element type: exact_tri data) on
+/// the target and on the source, a write to one and a look at the other (both ways), clone_from in the opposite direction.
+fn clonefrom_cases(rng: &mut StdRng, quick: bool, push: &mut dyn FnMut(Value)) {
+    let hows = ["vecs", "resized", "clone", "vectors", "index"]; let mut t = 0usize;
+    let ex = |rng: &mut StdRng, n: usize| -> (Value, Vec<i64>) { for tr in 0..100 { let (a, b, c, r) = exact_tri(rng, n, None, if tr < 50 { 1 } else { 0 }, 2); if fits_tlc(&a, &b, &c, &r) && fits_tlc(&a, &b.iter().map(|x| -x).collect::<Vec<i64>>(), &c, &r) { return (tri_json(&a, &b, &c), r); } }
+        (tri_json(&vec![0; n - 1], &vec![1; n], &vec![0; n - 1]), vec![1; n]) };
+    for n in 1..=(if quick { 8usize } else { 12 }) { for rep in 0..(if quick { 2 } else { 6 }) { t += 1;
+        let ty = TYS[(t + n) % 3]; let cx = ty == "cx";
+        let chain = [n, n + 1 + rep % 3, n, if n > 1 { n - 1 } else { 3 }, 1, n + 2, n];
+        let (tri, _) = ex(rng, n);
+        let mut ops = vec![json!({"op": "size"}), json!({"op": "diags"})];
+        for (q, g) in chain.iter().enumerate() {
+            let (src, r) = ex(rng, *g);
+            match (q + t) % 3 { 1 => ops.push(json!({"op": "mul_assign", "s": 2})), 2 => ops.push(json!({"op": "resize", "n": chain[(q + 2) % chain.len()]})), _ => {} }
+            ops.push(json!({"op": "aux_new", "b": src, "how": hows[(q + t) % 5]})); ops.push(json!({"op": "clone_from"}));
+            let obs = |rng: &mut StdRng| -> Vec<Value> { let mut mv = json!({"op": "matvec", "form": if rng.gen_bool(0.5) { "own" } else { "ref" }, "v": rv(rng, *g, -3, 3)}); if cx { mv["vi"] = Value::from(rv(rng, *g, -3, 3)); }
+                vec![json!({"op": "size"}), json!({"op": "diags"}), json!({"op": "convert"}), json!({"op": "dense"}), mv, json!({"op": "det"}), json!({"op": "solve", "r": r})] };
+            ops.extend(obs(rng)); ops.push(json!({"op": "on_aux", "ops": obs(rng)}));
+            // independence, both ways (the diagonal entry is replaced by its negative: the data stay exact)
+            let i = rng.gen_range(0..*g); let d = src["main"][i].as_i64().unwrap();
+            let mut st = json!({"op": "set", "i": i, "j": i, "x": -d}); if cx { st["xi"] = json!(0); }
+            ops.push(st.clone()); ops.push(json!({"op": "aux_same"}));
+            st["x"] = json!(d + 5); ops.push(json!({"op": "on_aux", "ops": [st, {"op": "diags"}]})); ops.push(json!({"op": "diags"}));
+            // the opposite direction: a second object of the NEXT size of the chain takes a copy of this one
+            let (nxt, _) = ex(rng, chain[(q + 1) % chain.len()]);
+            ops.push(json!({"op": "aux_new", "b": nxt, "how": hows[(q + t + 2) % 5]})); ops.push(json!({"op": "clone_into"}));
+            ops.push(json!({"op": "on_aux", "ops": [{"op": "size"}, {"op": "diags"}, {"op": "convert"}]}));
+            ops.push(json!({"op": "mul_assign", "s": -1})); ops.push(json!({"op": "aux_same"})); ops.push(json!({"op": "reclone"})); ops.push(json!({"op": "dense"}));
+        }
+        push(json!({"kind": "seq", "fam": "clone-from", "exact": true, "ty": ty, "ctor": (["vecs", "vectors", "index"][t % 3]), "tri": tri, "ops": ops}));
+    } }
 }
